@@ -215,8 +215,10 @@ where
             cut_sets.push(vec![i]);
         }
     } else {
-        cut_sets.push((1..n).collect()); // one byte at a time
-        for stride in [2usize, 3] {
+        if !(cfg!(miri) && n > 24) {
+            cut_sets.push((1..n).collect()); // one byte at a time
+        }
+        for stride in if cfg!(miri) { vec![3usize] } else { vec![2usize, 3] } {
             cut_sets.push((1..n).filter(|i| i % stride == 0).collect());
         }
         for _ in 0..(if cfg!(miri) { 1 } else { 5 }) {
@@ -341,7 +343,7 @@ pub fn run(s: &mut Session) {
         |i, rng, out| probes[(i % np) as usize].roundtrip(rng, out),
     ); }
 
-    let cases = s.args.budget(8_000, 400_000);
+    let cases = s.args.budget(8_000, 200_000);
     if crate::want(s, "value-fixpoint") { s.part(
         "value-fixpoint",
         "arbitrary model Values (boundary primitives, arbitrary attr names / slot keys, depth <= 64): every printer's output parses; the parsed value v1 (parser-produced) comes back exactly through all three printers (so f(f(v)) == f(v)); non-trivial when v is a record or text; distinct by value",
@@ -394,7 +396,7 @@ pub fn run(s: &mut Session) {
         },
     ); }
 
-    let cases = s.args.budget(12_000, 600_000);
+    let cases = s.args.budget(12_000, 400_000);
     if crate::want(s, "text-roundtrip") { s.part(
         "text-roundtrip",
         "grammar-generated texts (random styles, 40% char-mutated, <= 4 KiB): parse_recognize never panics; when it yields v, v comes back exactly through all three printers; non-trivial when the text is non-empty; distinct by text",
@@ -427,7 +429,7 @@ pub fn run(s: &mut Session) {
         },
     ); }
 
-    let cases = s.args.budget(5_000, 250_000);
+    let cases = s.args.budget(5_000, 150_000);
     if crate::want(s, "chunk-single-cut") { s.part(
         "chunk-single-cut",
         "texts (grammar, 30% mutated; 25% printed typed values decoded with their own recognizer): RecognizerDecoder and WithLenRecognizerDecoder fed the bytes cut at EVERY position 0..=n (for the framed decoder also inside the length header) give the one-shot parse_recognize result (same value, or no value when one-shot errors); two frames per run, both must be delivered; non-trivial when n >= 2; distinct by (type, text)",
@@ -485,10 +487,10 @@ pub fn run(s: &mut Session) {
             const SENTINEL: &str = "@ok{a:1,\"é\"}";
             let sentinel_value = parse_value(SENTINEL).ok();
             let frame = with_len_frame(&[&bytes, SENTINEL.as_bytes()]);
-            for round in 0..4 {
+            for round in 0..(if cfg!(miri) { 2 } else { 4 }) {
                 let cuts: Vec<usize> = if round == 0 {
                     vec![]
-                } else if round == 1 {
+                } else if round == 1 && !(cfg!(miri) && n > 24) {
                     (1..n).collect()
                 } else {
                     let mut c: Vec<usize> = (0..rng.range(1, 6)).map(|_| rng.usize_below(n + 1)).collect();
